@@ -57,9 +57,10 @@ const char *FSGS[] = {
     "FSG_BEGIN c\nNUM_STATES 2\nSTART_STATE 0\nFINAL_STATE 1\nT 0 1 1.0\nFSG_END\n",
     "FSG_BEGIN d\nNUM_STATES 2\nSTART_STATE 0\nFINAL_STATE 1\nT 0 1 1.0 zzzunknownword\nFSG_END\n", // refused at install
 };
-const char *TEXTS[] = {"go forward ten meters", "go", "", " ", "go zzzunknownword", "ten\tmeters\n", "a a a a a a a a"};
-// 1 = must be accepted, 0 = must be refused, 2 = the documentation does not say (empty word sequence)
-const int TEXT_OK[] = {1, 1, 2, 2, 0, 1, 1};
+const char *TEXTS[] = {"go forward ten meters", "go", "", " ", "go zzzunknownword", "ten\tmeters\n", "a a a a a a a a", "go m\xc3\xa8tres w\"q"};
+// 1 = must be accepted, 0 = must be refused, 2 = the documentation does not say (empty word sequence) or it
+// depends on the history (words that an earlier call may have added)
+const int TEXT_OK[] = {1, 1, 2, 2, 0, 1, 1, 2};
 
 Verdict fail(const std::string &key, const std::string &what, const std::string &hist) { return Verdict::fail(key, what + "\nhistory:" + hist); }
 
@@ -74,6 +75,7 @@ const KeyInfo KEYS[] = {{"hmm", 's'}, {"dict", 's'}, {"cmn", 's'}, {"samprate", 
 const int NKEYS = sizeof(KEYS) / sizeof(KEYS[0]);
 
 // a configuration meant for decoder_init / decoder_reinit; *valid says whether initialisation must succeed
+bool gInitHasGrammar = false;
 config_t *genInitConfig(Choices &c, std::ostringstream &h, bool *valid, bool *french) {
   config_t *cfg = config_init(NULL);
   *valid = true;
@@ -89,6 +91,16 @@ config_t *genInitConfig(Choices &c, std::ostringstream &h, bool *valid, bool *fr
   size_t lm = c.weighted({8, 1});
   config_set_str(cfg, "loglevel", lm == 0 ? "FATAL" : "NOT_A_LEVEL");
   if (lm) *valid = false;
+  // a grammar named in the configuration is loaded by the initialisation itself
+  size_t gm = c.weighted({6, 1, 1, 1, 1});
+  gInitHasGrammar = hm == 0 && (gm == 1 || gm == 2);
+  if (hm == 0 && gm) {
+    if (gm == 1) config_set_str(cfg, "fsg", (verifDir() + "/data/valid.fsg").c_str());
+    if (gm == 2) config_set_str(cfg, "jsgf", (verifDir() + "/data/valid.gram").c_str());
+    if (gm == 3) config_set_str(cfg, "fsg", (verifDir() + "/data/unknownword.fsg").c_str()), *valid = false;
+    if (gm == 4) config_set_str(cfg, "jsgf", "/nonexistent/grammar.gram"), *valid = false;
+    h << "{grammar=" << (gm == 1 ? "fsg" : gm == 2 ? "jsgf" : gm == 3 ? "fsg-with-unknown-word" : "missing-jsgf") << "}";
+  }
   if (c.coin(30)) config_set_bool(cfg, "compallsen", 1);
   if (c.coin(20)) config_set_float(cfg, "beam", 1e-30);
   if (c.coin(15)) config_set_str(cfg, "cmn", "batch");
@@ -292,7 +304,7 @@ Verdict propC09(Choices &c, Ctx &ctx) {
       break;
     }
     case 2: {
-      int i = (int)c.range(0, 6);
+      int i = (int)c.range(0, 7);
       h << " align" << di << "(" << i << ")";
       ctx.describe(h.str());
       int rc = decoder_set_align_text(d, TEXTS[i]);
@@ -305,13 +317,13 @@ Verdict propC09(Choices &c, Ctx &ctx) {
       break;
     }
     case 3: {
-      static const char *W[] = {"neword", "go(2)", "", "go", "x(2)", "w\"q"};
+      static const char *W[] = {"neword", "go(2)", "", "go", "x(2)", "w\"q", "m\xc3\xa8tres"};
       static const char *P[] = {"N UW W ER D", "G OW", "", "QQ", "K", "T  AH\tB"};
-      int wi = (int)c.range(0, 5), pi = (int)c.range(0, 5);
+      int wi = (int)c.range(0, 6), pi = (int)c.range(0, 5);
       int upd = (int)c.range(0, 1);
       h << " add" << di << "('" << W[wi] << "','" << P[pi] << "'," << upd << ")";
       ctx.describe(h.str());
-      bool wordOk = wi == 0 || wi == 1 || wi == 5;
+      bool wordOk = wi == 0 || wi == 1 || wi >= 5;
       bool pronOk = pi == 0 || pi == 1 || pi == 4 || pi == 5;
       bool dup = dict_wordid(d->dict, W[wi]) != BAD_S3WID;
       int rc = decoder_add_word(d, W[wi], P[pi], upd);
@@ -596,7 +608,7 @@ Verdict propC09(Choices &c, Ctx &ctx) {
       if (!valid && rc >= 0) res = fail("invalid-configuration-accepted", Msg() << "decoder_reinit with an unusable configuration returned " << rc, h.str());
       ctx.label(valid ? "reinit:new-config" : "reinit:unusable-config");
       x.broken = rc < 0;
-      x.hasGrammar = false;
+      x.hasGrammar = rc >= 0 && gInitHasGrammar;
       x.utt = Dec::IDLE;
       x.french = rc >= 0 && french;
       break;
@@ -635,14 +647,17 @@ Verdict propC09(Choices &c, Ctx &ctx) {
       break;
     }
     case 24: {
-      static const char *F[] = {"/tests/data/goforward.gram", "/tests/data/nonexistent.gram", "/tests/data/goforward.fsg", "/tests/data"};
-      int i = (int)c.range(0, 3);
+      // a valid grammar over dictionary words; a missing file; a file that is not JSGF; a directory; a grammar with words the dictionary lacks
+      const std::string F[] = {verifDir() + "/data/valid.gram", "/nonexistent/grammar.gram", verifDir() + "/data/valid.fsg", verifDir() + "/data", audio::repoDir() + "/tests/data/goforward.gram"};
+      int i = (int)c.range(0, 4);
       h << " jsgf_file" << di << "(" << i << ")";
       ctx.describe(h.str());
-      int rc = decoder_set_jsgf_file(d, (audio::repoDir() + F[i]).c_str());
+      int rc = decoder_set_jsgf_file(d, F[i].c_str());
       if (i == 0) {
-        if (rc != 0 && x.utt != Dec::STARTED) res = fail("valid-grammar-refused", Msg() << "decoder_set_jsgf_file(goforward.gram) returned " << rc, h.str());
+        if (rc != 0 && x.utt != Dec::STARTED) res = fail("valid-grammar-refused", Msg() << "decoder_set_jsgf_file(valid.gram) returned " << rc, h.str());
         if (rc == 0) x.hasGrammar = true;
+      } else if (i == 4) {
+        if (rc == 0) x.hasGrammar = true; // the bundled grammar: only its first public rule is compiled
       } else if (rc == 0)
         res = fail("invalid-grammar-accepted", Msg() << "decoder_set_jsgf_file(" << F[i] << ") returned 0", h.str());
       resync(x);
